@@ -206,6 +206,18 @@ CHECKS["C14"] = dict(
          "never a violation). The hash-seed and enumeration-order spaces are sampled through the schedules, not enumerated.",
     design="3/C14")
 
+CHECKS["C09"] = dict(
+    technique="TLA+ transcription of gitignore semantics (GitIgnore.tla) and of membership over an abstract file system "
+              "with realpath semantics (GenIgnore/FileSys), invariants checked by TLC; every pattern list replayed into "
+              "CodeBase membership/enumeration on the materialised tree, git check-ignore validating the transcription",
+    text="TLC checks for every list of up to 2 catalogue patterns on the fixed tree that membership is independent of the "
+         "spelling (relative, absolute, '.', 'dir/..', through file/dir links) and that outside/dangling/non-source/sibling "
+         "paths are never members; the same lists are given to the real CodeBase and `path in CodeBase` for every file and "
+         "spelling plus list(CodeBase) are compared with the specification; git check-ignore --no-index must agree with "
+         "GitIgnore.tla on every list (disagreement above 1% aborts with exit 2). The tree is fixed (one awkward tree), the "
+         "pattern language is covered through a 36-pattern catalogue.",
+    design="3/C09")
+
 PENDING_REASON = "check not built yet (build in progress; see DESIGN.md section 7)"
 
 
